@@ -14,7 +14,8 @@ RULE = ('Each configuration is run (a) twice in one process with fresh objects, 
         'names, dynamic universes in which several assets enter at the same rebalance instant, the repository\'s own '
         'top-N momentum alpha model (ties among simultaneous entrants), universe-driven, momentum-sign and '
         'inverse-volatility models, both sizers. Non-trivial: a configuration with >= 2 fills; distinct = (config '
-        'signature, entry map).')
+        'signature, entry map).'
+        ' Further modes: the same universe object, the same data handler (after it was asked for prices before an asset\'s first bar) and the same alpha model object (weights dict) reused by a second run.')
 ASSUMPTIONS = ['order identifiers (random uuids) are excluded from the comparison, as the statement says']
 
 
